@@ -32,6 +32,7 @@ func genFieldSeq(r *monitor.Rand, maxFields, depth int, bigPayloads bool) []byte
 		case refwire.WTVarint:
 			b = refwire.AppendKey(b, num, wt)
 			b = refwire.AppendVarint(b, randValue(r, scalarKinds[4]))
+			b = maybePad(r, b)
 		case refwire.WTFixed64:
 			b = refwire.AppendKey(b, num, wt)
 			b = refwire.AppendFixed64(b, r.Uint64())
@@ -51,10 +52,45 @@ func genFieldSeq(r *monitor.Rand, maxFields, depth int, bigPayloads bool) []byte
 			default:
 				p = r.Bytes(r.Intn(200))
 			}
-			b = refwire.AppendLen(b, p)
+			if r.Chance(1, 6) {
+				// a length prefix written with more bytes than necessary (writers that reserve the room for the
+				// length and fill it in afterwards emit these); every parser accepts it
+				b = refwire.AppendVarint(b, uint64(len(p)))
+				b = padVarintTo(b, refwire.SizeVarint(uint64(len(p))), 1+r.Intn(10-refwire.SizeVarint(uint64(len(p)))))
+				b = append(b, p...)
+			} else {
+				b = refwire.AppendLen(b, p)
+			}
 		}
 	}
 	return b
+}
+
+// maybePad re-encodes, one time in eight, the varint that ends b with redundant continuation bytes.
+func maybePad(r *monitor.Rand, b []byte) []byte {
+	if !r.Chance(1, 8) {
+		return b
+	}
+	n := 1
+	for n < len(b) && n < 10 && b[len(b)-n-1]&0x80 != 0 {
+		n++
+	}
+	if n >= 10 {
+		return b
+	}
+	return padVarintTo(b, n, 1+r.Intn(10-n))
+}
+
+// padVarintTo lengthens the varint of n bytes that ends b by extra bytes without changing its value.
+func padVarintTo(b []byte, n, extra int) []byte {
+	if extra <= 0 || n+extra > 10 {
+		return b
+	}
+	b[len(b)-1] |= 0x80
+	for i := 1; i < extra; i++ {
+		b = append(b, 0x80)
+	}
+	return append(b, 0x00)
 }
 
 // runSkip: for well-formed field sequences, DecodeTag+Skip must return each field's complete raw
@@ -83,12 +119,16 @@ func runSkip(cfg *config, res *monitor.Result) {
 			if len(fields) >= 3 {
 				wts := map[int]bool{}
 				kls := map[int]bool{}
+				pad := ""
 				for _, f := range fields {
 					wts[f.WT] = true
 					kls[f.KeyLen] = true
+					if f.WT == refwire.WTLen && f.End-len(f.Payload)-f.Start-f.KeyLen > refwire.SizeVarint(uint64(len(f.Payload))) {
+						pad = "/padded-length"
+					}
 				}
 				if len(wts) >= 2 {
-					classes["skip/"+setStr(wts)+"/keys"+setStr(kls)+"/"+modeName(fast)]++
+					classes["skip/"+setStr(wts)+"/keys"+setStr(kls)+pad+"/"+modeName(fast)]++
 				}
 			}
 		}
